@@ -27,7 +27,7 @@ REAL_STUB = "real: all yastn code. stub: LRU container in instrumented-cache run
 ASSUMPTIONS = ["fused basis deliberately not modelled: observation after complete unfusing; exact equality demanded only for pure data movement (fuse/unfuse round trip)"]
 CHUNK = 8
 WEIGHTS = {"rand": 2.5, "fuse": 6, "fuse_pair": 6, "unfuse": 4, "meta_to_hard": 1.5, "add": 5, "tensordot": 6, "vdot": 3, "trace": 3, "transpose": 3,
-           "pair_unary": 3, "conj": 1.5, "ncon": 1.5, "copy": 0.7, "fuse_roundtrip": 3, "block_rel": 2, "incompatible": 2, "norm": 1, "scal": 0.5,
+           "pair_unary": 3, "conj": 1.5, "ncon": 1.5, "copy": 0.7, "fuse_roundtrip": 3, "block_rel": 4, "incompatible": 2, "norm": 1, "scal": 0.5,
            "factor_recombine": 0.8}
 
 
@@ -100,7 +100,7 @@ class OpBlockRel(e1.Op):
             subs.append(sp)
         pos = sorted(rng.sample(range(5), npos))
         return {"op": "block_rel", "in": [], "args": {"specs": subs, "n": n, "axis": b, "pos": pos, "dtype": "complex128" if rng.random() < 0.2 else "float64",
-                                                     "pre_fuse": rng.random() < 0.3 and r >= 3}}
+                                                     "pre_fuse": rng.random() < 0.3 and r >= 3, "pseed": rng.randrange(1 << 30)}}
 
     def run(self, task, rec, ins):
         ar = rec["args"]
@@ -133,6 +133,36 @@ class OpBlockRel(e1.Op):
                 d = float((X2 - X).norm())
                 if d > 1e-12 * max(1.0, float(X.norm())):
                     raise V(PROP, "O3-block-steps", "blocking in two steps differs from blocking at once by %.3e" % d)
+        if r >= 3 and task.sym.nsym and "pseed" in ar and X.size and Y.size:
+            # a blocked leg that LOSES sectors (projection of another leg removes blocks by charge conservation), differently in X and Y, and is then
+            # product-fused with a further leg: contraction over the fused leg must equal contraction over its two constituents
+            import random as _random
+            pr = _random.Random(ar["pseed"])
+            others = [i for i in range(r) if i != b]
+            c, k = pr.sample(others, 2)
+
+            def project(T):
+                lc = T.get_legs(c)
+                if len(lc.t) == 0:
+                    return T
+                keep = sorted(pr.sample(range(len(lc.t)), pr.randint(1, len(lc.t))))
+                sub = yastn.Leg(task.cfg, s=lc.s, t=[lc.t[i] for i in keep], D=[lc.D[i] for i in keep])
+                m = yastn.eye(task.cfg, legs=(sub.conj(), sub), isdiag=False)
+                return yastn.tensordot(T, m, axes=(c, 0)).moveaxis(-1, c)
+            Xp, Yp = project(X), project(Y)
+            lo, hi = min(b, k), max(b, k)
+            grp = tuple((lo, hi) if i == lo else i for i in range(r) if i != hi)
+            try:
+                Xf, Yf = Xp.fuse_legs(axes=grp, mode="hard"), Yp.fuse_legs(axes=grp, mode="hard")
+                pf = grp.index((lo, hi))
+                Cf = yastn.tensordot(Xf, Yf, axes=(pf, pf), conj=(0, 1))
+                Cu = yastn.tensordot(Xp, Yp, axes=((lo, hi), (lo, hi)), conj=(0, 1))
+                d = float((Cf - Cu).norm())
+            except yastn.YastnError as e:
+                raise V(PROP, "O3-block-nested-fusion", "contraction over a product-fused leg containing a blocked leg that lost sectors raised YastnError: %s" % str(e)[:120])
+            if d > 1e-10 * max(1.0, float(Cu.norm())):
+                raise V(PROP, "O3-block-nested-fusion", "contraction over a product-fused leg containing a blocked leg that lost sectors differs from the contraction over its constituents by %.3e" % d)
+            core.current_world().stats["block_nested_fusion_checked"] += 1
         # contraction over all common legs as well (vdot): block diagonal in position
         v = yastn.vdot(X, Y)
         vs = sum(complex(yastn.vdot(x, y)) for x, y in zip(xs, ys))
